@@ -26,11 +26,17 @@ def parse_log(path):
     return status, evs
 
 
-def window(evs):
+def window(evs, T=None):
     """the part of the log between the harness markers 20 (before thread creation) and 21 (after the joins):
-    list of steps (tid, nenabled, [events])"""
+    list of steps (tid, nenabled, [events]); a spurious wake-up of thread j (event kind 30) is the model's action T+1+j"""
     steps, cur, inside = [], None, False
     for (tid, kind, obj, val) in evs:
+        if kind == 30 and inside and T is not None:
+            steps.append((T + 1 + tid, obj, []))
+            cur = None
+            continue
+        if kind == 30:
+            continue
         if kind == 20:
             inside = True
             continue
@@ -86,11 +92,11 @@ def run_schedules(ck, exe, configs, validate=True):
     mlines = []
     for i, (T, pad, inp, seed, ycs, pol) in enumerate(configs):
         status, evs = parse_log(logs[i])
-        steps = window(evs)
+        steps = window(evs, T)
         sched = ",".join(str(t) for (t, _, _) in steps) or "-"
         res.append({"i": i, "T": T, "ispadding": pad, "n": len(inp), "seed": seed, "yield_in_cs": ycs, "policy": pol,
                     "impl": impl.get("s%d" % i, "(no output)"), "status": status, "steps": steps, "sched": sched, "input": inp})
-        if validate and ycs == 0 and pol < 10:
+        if validate and ycs == 0:
             mlines.append("m%d conc %d %d %s %s" % (i, T, 1 if pad else 0, wv.hexs(inp), sched))
         try:
             os.remove(logs[i])
